@@ -52,11 +52,14 @@ def metalWhitelist : List String := ["define-macro", "extend-macro", "use-macro"
 def i18nWhitelist : List String := ["translate", "domain", "context", "target", "source", "attributes", "data",
   "name", "mode", "xmlns", "xml", "comment", "ignore", "ignore-attributes"]
 
-/-- `validate_attributes` -/
-def validateAttributes (ns : List ((Str × Str) × Tok)) (namespace_ : Str) (wl : List String) : CRes Unit :=
+/-- `validate_attributes`: the token is the attribute's local name (a `Token` slice: it has a position) -/
+def validateAttributes (ns : List ((Str × Str) × Tok)) (names : List ((Str × Str) × Tok)) (namespace_ : Str)
+    (wl : List String) : CRes Unit :=
   ns.forM (fun ((n, name), _) =>
     if n == namespace_ && !wl.contains name.toString then
-      .error (.template "CompilationError" ("Bad attribute for namespace '" ++ n.toString ++ "'") { str := name, pos := 0 })
+      match names.find? (·.1 == (n, name)) with
+      | some (_, tok) => .error (.template "CompilationError" ("Bad attribute for namespace '" ++ n.toString ++ "'") tok)
+      | none => .error (.templateNoSrc "CompilationError" ("Bad attribute for namespace '" ++ n.toString ++ "'") name)
     else pure ())
 
 /-- `_maybe_trim`: `re_trim.sub(" ", s)` -/
@@ -217,9 +220,9 @@ def elementCore (c : BCfg) (kids : List Item → BM (List Node)) (start : Elem) 
         | some d => pure ((p, a), ({ v with str := d } : Tok))
         | none => bCrash "unsupported-entity"
       else pure ((p, a), v))
-    liftCB (validateAttributes ns TAL talWhitelist)
-    liftCB (validateAttributes ns METAL metalWhitelist)
-    liftCB (validateAttributes ns I18N i18nWhitelist)
+    liftCB (validateAttributes ns start.nsNames TAL talWhitelist)
+    liftCB (validateAttributes ns start.nsNames METAL metalWhitelist)
+    liftCB (validateAttributes ns start.nsNames I18N i18nWhitelist)
     let get (k : Str × Str) : Option Tok := nsGet ns k
     let nonEmpty (o : Option Tok) : Bool := match o with | some t => !t.str.isEmpty | none => false
     -- _check_attributes
